@@ -25,10 +25,14 @@ type World struct {
 	contracts map[string]*PkgContracts
 	files     []*ast.File
 	src       map[string][]byte
+	feWeight  int // :weight given to forall-exists quantifiers
 }
 
 func LoadWorld(repo string, patterns []string, overlay map[string][]byte) (*World, error) {
-	w := &World{repo: repo, spkgs: map[string]*ssa.Package{}, src: map[string][]byte{}}
+	w := &World{repo: repo, spkgs: map[string]*ssa.Package{}, src: map[string][]byte{}, feWeight: 7}
+	if v := os.Getenv("GOVC_FE_WEIGHT"); v != "" {
+		fmt.Sscanf(v, "%d", &w.feWeight)
+	}
 	cfg := &packages.Config{
 		Mode:       packages.LoadAllSyntax,
 		Dir:        repo,
